@@ -89,6 +89,22 @@ CHECKS = {
               'tolerance of share_moltype_with declared (values generated equal or clearly different); write_gro is '
               'outside the property (node order, see DESIGN F13); file parsers of the harness.'),
         technique='Coq proof (invariant of the deduplication loop, equivalence properties, sort/projection commutation) + in-Coq correspondence on files written by the real code'),
+    'C17': dict(
+        category='proof',
+        text=('Coq theorems about a model of AnnotateResidues.run_system / annotate_residues_from_sequence (residues '
+              'ordered by lowest node key) and of convert_dssp_to_martini as character-level str.replace rewriting over the '
+              'SS_CG and pattern tables regenerated from the source: the slicing loop equals direct indexing into the '
+              'reconciled sequence over the SELECTED molecules (unselected get nothing), the three documented length '
+              'cases and only those succeed; conversion preserves length and maps non-helical classes by the table for '
+              'every string (invariant: every pattern keeps its dot positions); the helical run rule is proved for every '
+              'string of length <= 15 by an exhaustive kernel computation over all helix/non-helix patterns lifted to class '
+              'strings (convert_run_rule_partial). Tie: real AnnotateResidues and convert_dssp_to_martini compared with '
+              'model and spec inside Coq.'),
+        design_ref='DESIGN.md section 5, C17',
+        note=('Trusted: Coq kernel + vm_compute; translator for the two tables; model of Python str.replace '
+              '(leftmost, non-overlapping) validated by the correspondence runs; the run rule beyond length 15 is '
+              'validated (random runs up to 12 per helix, strings up to ~45), not proved.'),
+        technique='Coq proof (loop/indexing refinement by induction; dot-mask invariant of the rewriting; bounded exhaustive kernel evaluation for the run rule) + tables regenerated from source + in-Coq correspondence'),
 }
 NOT_APPLICABLE = {}
 PENDING_REASON = 'not yet claimed: model and proofs for this property are still being built (see DESIGN.md staging); no check is registered so nothing is asserted'
